@@ -164,6 +164,21 @@ def interval(body, e, depth=0, env=None):
         if e[1] == 'PtrMetadata':
             return LEN
         return None
+    if k in ('field', 'downcast'):
+        # a component of a merged aggregate (`row.2` with row = one of several literal tuples): the union over its definitions
+        from .facts import _spine_phi, alternatives
+        if _spine_phi(e) is not None and depth < 40:
+            alts = alternatives(body, e, 32)
+            if alts and not any(_spine_phi(a) is not None and a[0] in ('field', 'downcast') and render(a) == render(e) for a, _ in alts):
+                out = None
+                for a, _c in alts:
+                    iv = interval(body, a, depth + 5, env)
+                    if iv is None:
+                        out = None
+                        break
+                    out = iv if out is None else union(out, iv)
+                if out is not None:
+                    return out
     if k == 'phi':
         out = None
         first = True
